@@ -21,6 +21,13 @@ S : a child process performs a TLC-generated sequence on RocksDB, appending an f
     call; the parent SIGKILLs it at a random instant, reopens the database, reads everything back (twice,
     with another reopen in between) and TLC validates  acknowledged calls ++ crash(call in flight) ++ reads
     against Trace_Store.tla (the call in flight may or may not have taken effect).
+S/alloc: the same with kills inside the allocation of an identifier: Steps_Store.tla models every operation as
+    its persistent writes (id_for of a first-seen name = counter merge + record put) with a kill between any
+    two of them (B3: the code's order satisfies IdsDistinct / AckedStable / Refines / Isolation, the swapped
+    order is refuted).  A writer child runs a TLC-generated sequence over 32 names without fsyncs, started by the
+    parent and killed after a random fraction of the ~0.5 ms it takes (some while the database is being
+    created); after reopening, NEW names are registered and written, the interrupted item is read, and after
+    another reopen everything is read back; TLC (Trace_Store.tla) decides each history.
 """
 import json, os, random, shutil, signal, subprocess, time
 from vlib import core
@@ -81,11 +88,14 @@ ALIAS = (["/a", "/a/b", "/z"], [["b/c", "x", "y"], ["c", "x2", "y2"], ["c", "x3"
 def concretise(rng, scope, store, db, caseno, tier, force_naming=None):
     na, ni, nk, nv = scope
     naming = force_naming or rng.choice(list(NAMINGS))
+    def grow(lst, n, fmt):
+        # larger scopes than the hand-written pools: further members derived from them (names stay free of '/')
+        return [lst[x] if x < len(lst) else fmt % (lst[x % len(lst)], x) for x in range(n)]
     if naming == "slash_alias":
-        uris, names = ALIAS[0][:na], [n[:ni] for n in ALIAS[1][:na]]
+        uris, names = ALIAS[0][:na], [grow(n, ni, "%s_%d") for n in ALIAS[1][:na]]
     else:
         u, n = NAMINGS[naming]
-        uris, names = u[:na], [n[:ni] for _ in range(na)]
+        uris, names = grow(u, na, "%s/u%d"), [grow(n, ni, "%s_%d") for _ in range(na)]
     if db == "shared":
         uris = ["/c%d%s" % (caseno, u) for u in uris]
     if rng.random() < 0.7:
@@ -150,6 +160,48 @@ def b3(tl, wd, scope, modes, hist, tag):
     core.log("[C13] B3 %s scope=%s hist=%s: %d states, %d transitions, depth %d, %.1fs" % (
         tag, scope, hist, r.distinct, r.generated, r.depth, r.wall))
     return r
+
+
+STEPS_INVS = ["TypeOK", "IdsDistinct", "AckedStable", "CounterCovers", "Refines"]
+STEPS_PROPS = ["AckedNeverChanges", "AckFresh", "Isolation", "ReadResult", "ReadMapResult"]
+OPS_ALL = core.Raw('{"idfor", "put", "delete", "get", "update", "remove", "clear", "read"}')
+OPS_VAL = core.Raw('{"idfor", "put", "get"}')
+OPS_MAP = core.Raw('{"idfor", "update", "clear", "read"}')
+
+
+def b3_steps(tl, wd, quick):
+    """Steps_Store.tla: identifier allocation as two persistent writes, a kill between any two persistent
+    writes of any call.  The order of the code (counter first) must satisfy the laws; the unsafe order must be
+    refuted by TLC (otherwise the laws would be vacuous)."""
+    runs = [((2, 1, 1, 1), 3, OPS_ALL, "all"), ((3, 1, 1, 1), 4, OPS_VAL, "values3")]
+    if not quick:
+        runs += [((2, 2, 1, 1), 5, OPS_VAL, "values2x2"), ((2, 1, 2, 2), 3, OPS_ALL, "all_k2v2"), ((3, 1, 1, 1), 4, OPS_MAP, "maps3")]
+    info = []
+    for scope, maxid, ops, tag in runs:
+        k = dict(NA=scope[0], NI=scope[1], NK=scope[2], NV=scope[3], MaxId=maxid, AllocOrder="counter_first", OpSet=ops)
+        c = core.cfg(constants=k, invariants=STEPS_INVS, properties=STEPS_PROPS, constraints=["Bound"], view="View")
+        r = core.run_tlc("Steps_Store", c, os.path.join(wd, "steps_" + tag), workers=4)
+        if not r.ok:
+            raise core.ToolError("Steps_Store.tla (counter_first) violates %s in TLC for %s:\n%s" % (r.violated, k, r.counterexample[:3000]))
+        tl.states += r.distinct
+        tl.transitions += max(0, r.generated - 1)
+        for a, (d, t) in r.coverage.items():
+            if a not in ("Init", "Bound"):
+                o = tl.cov.get("Steps." + a, (0, 0))
+                tl.cov["Steps." + a] = (o[0] + d, o[1] + t)
+        tl.runs.append({"run": "B3 steps " + tag, "scope": "NA=%s NI=%s NK=%s NV=%s MaxId=%s order=counter_first" % (scope + (maxid,)),
+                        "distinct": r.distinct, "generated": r.generated, "depth": r.depth, "wall_s": round(r.wall, 1)})
+        core.log("[C13] B3 steps %s scope=%s: %d states, %d transitions, depth %d, %.1fs" % (tag, scope, r.distinct, r.generated, r.depth, r.wall))
+        info.append({"scope": list(scope), "order": "counter_first", "holds": True, "states": r.distinct})
+    for invs in (["IdsDistinct"], ["Refines"]):
+        k = dict(NA=2, NI=1, NK=1, NV=1, MaxId=3, AllocOrder="record_first", OpSet=OPS_ALL)
+        c = core.cfg(constants=k, invariants=invs, constraints=["Bound"], view="View")
+        r = core.run_tlc("Steps_Store", c, os.path.join(wd, "steps_unsafe"), workers=1, coverage=False)
+        if r.status != "invariant":
+            raise core.ToolError("Steps_Store.tla: the unsafe order of the allocation writes is not refuted (%s): %s is vacuous" % (r.status, invs))
+        info.append({"scope": [2, 1, 1, 1], "order": "record_first", "refuted": r.violated, "counterexample_depth": r.depth})
+    core.log("[C13] B3 steps: record-before-counter order refuted by TLC (IdsDistinct, Refines): the laws are not vacuous")
+    return info
 
 
 def dump_graph(tl, wd, scope, tag):
@@ -301,6 +353,9 @@ def run(tier, out):
         b3(tl, wd, (3, 1, 2, 1), MODES3, 0, "three_agents")
         b3(tl, wd, (2, 2, 1, 1), MODES1, 3, "hist_2x2")
 
+    # ---- B3 (mechanism): every operation as its persistent writes, SIGKILL between any two of them
+    steps_info = b3_steps(tl, wd, quick)
+
     # ---- B1: generate
     st = {"cases": 0, "steps": 0, "conform": 0, "rejected": 0, "known": 0}
     counter = [0]
@@ -392,14 +447,18 @@ def run(tier, out):
 
     # ---- S: SIGKILL of a writer process
     ks = kill_runs(out, wd, rng, 8 if quick else 300, tier)
+    ka = alloc_kill_runs(out, wd, rng, 320 if quick else 2000, tier)
 
     unvisited = sorted(a for a, (d, t) in tl.cov.items() if t == 0)
     out.add(states=tl.states, transitions=tl.transitions,
-            traces_validated_against_impl=st["conform"] + ks["validated"],
+            traces_validated_against_impl=st["conform"] + ks["validated"] + ka["validated"],
             replayed_cases=st["cases"], replayed_calls=st["steps"], rocksdb_cases=n_rocks, rocksdb_cases_dropped_over_open_budget=dropped,
             in_memory_cases=len(all_cases) - n_rocks, state_graph_edges_all_replayed=edges_total,
             known_finding_cases=st["known"], p_trace_executions=tv_cases, p_trace_events=tv_events,
             kills=ks["kills"], kills_with_call_in_flight=ks["midrun"], kill_trace_events=ks["events"],
+            allocation_kills=ka["kills"], allocation_kills_with_call_in_flight=ka["midrun"],
+            allocation_kills_inside_first_call_on_a_name=ka["in_alloc"], new_names_registered_after_kills=ka["fresh"],
+            allocation_kill_trace_events=ka["events"], kills_while_opening_the_database=ka["in_open"], steps_store=steps_info,
             tlc_runs=tl.runs, replayed_calls_by_store_and_action=dict(sorted(by_action.items())),
             action_coverage={a: {"distinct": d, "taken": t} for a, (d, t) in sorted(tl.cov.items())},
             actions_never_taken=unvisited, exhaustive=True, model_drift=0,
@@ -432,30 +491,45 @@ def dump_acts(scope):
     return acts
 
 
-def one_kill(wd, j, case, delay):
+def one_kill(wd, j, case, delay, open_delay=None):
     """returns (acked observations, done?)"""
-    d = os.path.join(wd, "kill%d" % j)
+    d = os.path.join(wd, "kill%s" % j)
     shutil.rmtree(d, ignore_errors=True)
     os.makedirs(d)
     db, ack, cf = os.path.join(d, "db"), os.path.join(d, "ack.ndjson"), os.path.join(d, "case.json")
     with open(cf, "w") as fh:
         json.dump({"cfg": case["cfg"], "acts": [rp.inputs(a, INPUT_KEYS) for a in case["acts"]]}, fh)
-    p = subprocess.Popen([core.harness_bin("store"), "child", db, ack, cf], stdout=subprocess.PIPE, stderr=subprocess.PIPE)
+    go = bool(case["cfg"].get("go"))
+    p = subprocess.Popen([core.harness_bin("store"), "child", db, ack, cf], stdin=subprocess.PIPE,
+                         stdout=subprocess.PIPE, stderr=subprocess.PIPE)
+    t_spawn = time.perf_counter()
     try:
+        if open_delay is not None:
+            # killed while it opens (creates) the database: nothing was acknowledged
+            time.sleep(open_delay)
+            os.kill(p.pid, signal.SIGKILL)
+            return [], False, db, 0.0, d
         line = p.stdout.readline()
+        one_kill.t_open = time.perf_counter() - t_spawn
         if line.strip() != b"READY":
             p.kill()
             raise core.ToolError("kill child did not start: %r %r" % (line, p.stderr.read()[-2000:]))
-        t0 = time.time()
+        if go:
+            p.stdin.write(b"GO\n")
+            p.stdin.flush()
+        t0 = time.perf_counter()
         if delay is None:
             # calibration run: let it finish, measure
-            while time.time() - t0 < 120:
-                if os.path.exists(ack) and b'"done"' in open(ack, "rb").read()[-40:]:
+            while time.perf_counter() - t0 < 120:
+                if os.path.exists(ack) and b'"done"' in open(ack, "rb").read()[-60:]:
                     break
-                time.sleep(0.005)
-        else:
+                time.sleep(0.002)
+        elif delay > 0.003:
             time.sleep(delay)
-        elapsed = time.time() - t0
+        else:
+            while time.perf_counter() - t0 < delay:       # sub-millisecond delays: spin
+                pass
+        elapsed = time.perf_counter() - t0
         os.kill(p.pid, signal.SIGKILL)
     finally:
         try:
@@ -463,6 +537,7 @@ def one_kill(wd, j, case, delay):
         except OSError:
             pass
         p.wait()
+        p.stdin.close()
         p.stdout.close()
         p.stderr.close()
     obs, done = [], False
@@ -476,11 +551,54 @@ def one_kill(wd, j, case, delay):
                 break                      # a torn last line is not an acknowledgement
             if o.get("done"):
                 done = True
+                if delay is None and "us" in o:
+                    elapsed = o["us"] / 1e6           # the child's own measurement of the sequence
                 break
             if o.get("n") != len(obs):
                 raise core.ToolError("ack file out of order")
             obs.append(o["obs"])
     return obs, done, db, elapsed, d
+
+
+def validate_kill_traces(out, wd, scope, metas, events, ks, tag, note=None):
+    """TLC (Trace_Store) decides every  acknowledged calls ++ crash(call in flight) ++ calls after reopening"""
+    if events:
+        # chunks keep each TLC run small; a rejection is attributed to the run containing the failing event
+        chunk, start = [], 0
+        groups = []
+        for m in metas:
+            if m[1] - start > 60000 and chunk:
+                groups.append(chunk)
+                chunk, start = [], m[0]
+            chunk.append(m)
+        if chunk:
+            groups.append(chunk)
+        gi = 0
+        rejected = 0
+        while groups:
+            grp = groups.pop(0)
+            gi += 1
+            lo, hi = grp[0][0], grp[-1][1]
+            res = core.trace_validate("Trace_Store", events[lo:hi], os.path.join(wd, "%s%d" % (tag, gi)),
+                                      constants=consts(scope, crash=True), timeout=1200)
+            if res["accepted"]:
+                ks["events"] += res["total"]
+                ks["validated"] += len(grp)
+                continue
+            at = lo + res["matched"]
+            bi = next((x for x, m in enumerate(grp) if m[0] <= at < m[1]), len(grp) - 1)
+            ks["validated"] += bi
+            ks["events"] += grp[bi][1] - lo
+            s, e, case, acked, pend = grp[bi]
+            out.violation("after SIGKILL with %d acknowledged calls (in flight: %s) the reopened RocksDB store is not the state "
+                          "Store.tla allows: event %s rejected%s" % (acked, json.dumps(pend), json.dumps(events[at]),
+                                                                     note(events[s:e]) if note else ""),
+                          {"component": "Kill", "scope": list(scope), "trace": events[s:e], "rejected_at": at - s})
+            rejected += 1
+            ks["rejected"] = ks.get("rejected", 0) + 1
+            # the histories behind the rejected one are still to be decided
+            if grp[bi + 1:] and rejected < MAX_REPLAYS:
+                groups.insert(0, grp[bi + 1:])
 
 
 def kill_runs(out, wd, rng, n, tier):
@@ -545,37 +663,166 @@ def kill_runs(out, wd, rng, n, tier):
         metas.append((len(events), len(events) + len(ev), case, len(obs), pend))
         events += ev
         shutil.rmtree(d, ignore_errors=True)
-    if events:
-        # chunks keep each TLC run small; a rejection is attributed to the run containing the failing event
-        chunk, start = [], 0
-        groups = []
-        for m in metas:
-            if m[1] - start > 60000 and chunk:
-                groups.append(chunk)
-                chunk, start = [], m[0]
-            chunk.append(m)
-        if chunk:
-            groups.append(chunk)
-        for gi, grp in enumerate(groups):
-            lo, hi = grp[0][0], grp[-1][1]
-            res = core.trace_validate("Trace_Store", events[lo:hi], os.path.join(wd, "tv_kill%d" % gi),
-                                      constants=consts(scope, crash=True), timeout=1200)
-            ks["events"] += res["total"]
-            if res["accepted"]:
-                ks["validated"] += len(grp)
-                continue
-            at = lo + res["matched"]
-            bad = next((m for m in grp if m[0] <= at < m[1]), grp[-1])
-            ks["validated"] += sum(1 for m in grp if m[1] <= at)
-            s, e, case, acked, pend = bad
-            out.violation("after SIGKILL with %d acknowledged calls (in flight: %s) the reopened RocksDB store is not the state "
-                          "Store.tla allows: event %s rejected" % (acked, json.dumps(pend), json.dumps(events[at])),
-                          {"component": "Kill", "scope": list(scope), "trace": events[s:e], "rejected_at": at - s})
+    validate_kill_traces(out, wd, scope, metas, events, ks, "tv_kill")
     core.log("[C13] S: %d kills (%d with a call in flight), %d events validated by Trace_Store; full run %.3fs" % (
         ks["kills"], ks["midrun"], ks["events"], full or 0))
     if len(out.cov["samples"]) < 6 and runs:
         case, obs, pend, d = runs[-1]
         out.sample({"kill": {"acknowledged_calls": len(obs), "in_flight": pend, "last_acked": (case["acts"][len(obs) - 1] if obs else None)}})
+    return ks
+
+
+# ------------------------------------------------------------------------------------------ S, allocation kills
+
+ALLOC_SCOPE = (4, 8, 1, 2)
+
+
+def probe_acts(scope, prefix, pend, rng):
+    """What the parent does with the database after the kill (the calls are chosen here, their results are
+    decided by TLC): every name the writer used is resolved again (identifiers are stable), NEW names are
+    registered - the first one right away, so that it is the first allocation after the reopen -, the new
+    items are written, the item whose call was in flight is read, and after another reopen everything
+    is read back."""
+    touched = []
+    for a in prefix + ([pend] if pend and "i" in pend else []):
+        if "i" in a and (a["a"], a["i"]) not in touched:
+            touched.append((a["a"], a["i"]))
+    fresh = [(a, i) for a in range(1, scope[0] + 1) for i in range(1, scope[1] + 1) if (a, i) not in touched]
+    rng.shuffle(fresh)
+    if pend and "i" in pend and fresh:
+        # the first new name: same agent as the interrupted call or another one, both matter
+        same = [f for f in fresh if f[0] == pend["a"]]
+        other = [f for f in fresh if f[0] != pend["a"]]
+        first = (same if (rng.random() < 0.5 and same) or not other else other)[0]
+        fresh.remove(first)
+        fresh.insert(0, first)
+    fresh = fresh[:4]
+    acts = []
+    pitem = (pend["a"], pend["i"]) if pend and "i" in pend else None
+    if pitem:
+        acts.append({"k": "idfor", "a": pitem[0], "i": pitem[1]})
+    for (a, i) in fresh[:1]:
+        acts.append({"k": "idfor", "a": a, "i": i})
+    for (a, i) in touched:
+        acts.append({"k": "idfor", "a": a, "i": i})
+    for (a, i) in fresh[1:]:
+        acts.append({"k": "idfor", "a": a, "i": i})
+    v0 = 1
+    if pend and pend.get("v") == 1:
+        v0 = 2                                   # not the value of the call in flight: the two cannot be confused
+    for n, (a, i) in enumerate(fresh):
+        if n % 2 == 0:
+            acts.append({"k": "put", "a": a, "i": i, "v": v0 if n == 0 else 1 + (n // 2) % scope[3]})
+        else:
+            acts.append({"k": "update", "a": a, "i": i, "key": 1, "v": 1 + (n // 2) % scope[3]})
+    if pitem:
+        acts += [{"k": "get", "a": pitem[0], "i": pitem[1]}, {"k": "read", "a": pitem[0], "i": pitem[1]}]
+    acts.append({"k": "reopen"})
+    for (a, i) in touched + fresh:
+        acts += [{"k": "idfor", "a": a, "i": i}, {"k": "get", "a": a, "i": i}, {"k": "read", "a": a, "i": i}]
+    return acts, len(fresh)
+
+
+def shared_ids_note(ev):
+    """diagnostic only: names that were handed the same raw identifier after the kill"""
+    at = next((n for n, e in enumerate(ev) if e.get("k") == "crash"), 0)
+    seen = {}
+    for e in ev[at:]:
+        if "rid" in e and "i" in e:
+            seen.setdefault(e["rid"], set()).add((e["a"], e["i"]))
+    dup = {r: sorted(x) for r, x in seen.items() if len(x) > 1}
+    return (" [raw identifiers shared after the kill: %s]" % json.dumps(dup)) if dup else ""
+
+
+def alloc_kill_runs(out, wd, rng, n, tier):
+    """SIGKILL inside the allocation of an identifier.  The writer performs a TLC-generated sequence over
+    many names (every call resolves the identifier first, so the early calls allocate), acknowledging each
+    call with a plain write; it is started by the parent (GO) and killed after a random fraction of the
+    time the sequence takes, so kills land between the persistent writes of id_for.  After the kill the
+    parent registers new names and writes them (probe_acts)."""
+    scope = ALLOC_SCOPE
+    ntr = 8 if tier == "quick" else 40         # kills are cheap, behaviours are not: each behaviour is killed many times
+    paths = simulate(wd, scope, 40, ntr, "alloc", core.seed() + 11)
+    paths = [[a for a in p if a["k"] not in ("reopen", "restart")] for p in paths]   # these keep the state: the rest is still a behaviour
+    ks = {"kills": 0, "midrun": 0, "events": 0, "validated": 0, "in_alloc": 0, "fresh": 0, "in_open": 0}
+    plan = []
+    for j in range(n):
+        cfg = concretise(rng, scope, "rocks", "fresh", 0, tier, None)
+        cfg.pop("prealloc", None)
+        cfg["prealloc"] = rng.choice([0, 0, 3, 254])
+        cfg["go"] = True
+        cfg["ack_sync"] = False
+        plan.append(({"id": "akill%d" % j, "cfg": cfg, "acts": paths[j % len(paths)]}, rng.random()))
+    if not plan:
+        return ks
+    first = one_kill(wd, "a0", plan[0][0], None)
+    full = min(max(first[3], 0.0005), 0.5)
+    from concurrent.futures import ThreadPoolExecutor
+    with ThreadPoolExecutor(4) as ex:
+        # the allocations are dense at the beginning of a sequence: kill within its first 70 %
+        t_open = getattr(one_kill, "t_open", 0.05)
+        futs = []
+        for j in range(1, n):
+            if j % 12 == 5:
+                ks["in_open"] += 1         # some are killed while the database is being opened / created
+                futs.append(ex.submit(one_kill, wd, "a%d" % j, plan[j][0], 0, plan[j][1] * t_open * 1.1))
+            else:
+                futs.append(ex.submit(one_kill, wd, "a%d" % j, plan[j][0], plan[j][1] * full * 0.7))
+        outcomes = [first] + [f.result() for f in futs]
+    post_cases, runs = [], []
+    for j, (obs, done, db, elapsed, d) in enumerate(outcomes):
+        case = plan[j][0]
+        p = case["acts"]
+        ks["kills"] += 1
+        pend = None
+        if len(obs) < len(p) and elapsed > 0:
+            pend = rp.inputs(p[len(obs)], INPUT_KEYS)
+            ks["midrun"] += 1
+            if "i" in pend and not any(a.get("a") == pend["a"] and a.get("i") == pend["i"] for a in p[:len(obs)]):
+                ks["in_alloc"] += 1            # the call in flight was the first one on its name: it allocates
+        acts, nfresh = probe_acts(scope, [rp.inputs(a, INPUT_KEYS) for a in p[:len(obs)]], pend, rng)
+        ks["fresh"] += nfresh
+        pcfg = dict(case["cfg"], db="at", path=db)
+        for k in ("prealloc", "go", "ack_sync"):
+            pcfg.pop(k, None)
+        post_cases.append({"id": "apost%d" % j, "cfg": pcfg, "acts": acts})
+        runs.append((case, obs, pend, d))
+    pgroups = [g for g in (post_cases[x::4] for x in range(4)) if g]
+    pres = harness_parallel(pgroups, wd, "apost")
+    post = [None] * len(post_cases)
+    for x, (g, gr) in enumerate(zip(pgroups, pres)):
+        post[x::4] = gr
+    events, metas = [], []
+    for (case, obs, pend, d), pc, pr in zip(runs, post_cases, post):
+        ev = [{"k": "reset"}]
+        for a, o in zip(case["acts"], obs):
+            e = rp.inputs(a, INPUT_KEYS)
+            e.update(o)
+            ev.append(e)
+        crash = {"k": "crash"}
+        if pend is not None:
+            crash["pend"] = pend
+        ev.append(crash)
+        if pr.get("panic"):
+            out.violation("RocksDB store cannot be used after SIGKILL: %s" % pr["panic"],
+                          {"component": "Kill", "case": case, "acked": len(obs), "pend": pend})
+            continue
+        for a, o in zip(pc["acts"], pr["obs"]):
+            e = dict(a)
+            e.update({k: v for k, v in o.items() if k != "id"})
+            ev.append(e)
+        metas.append((len(events), len(events) + len(ev), case, len(obs), pend))
+        events += ev
+        shutil.rmtree(d, ignore_errors=True)
+    validate_kill_traces(out, wd, scope, metas, events, ks, "tv_akill", note=shared_ids_note)
+    core.log("[C13] S/alloc: %d kills (%d with a call in flight, %d of them the first call on a name = inside an allocation), "
+             "%d while the database was being opened; %d new names registered after the kills, %d events validated by "
+             "Trace_Store; sequence takes %.2f ms" % (
+                 ks["kills"], ks["midrun"], ks["in_alloc"], ks["in_open"], ks["fresh"], ks["events"], full * 1000))
+    if runs and len(out.cov["samples"]) < 7:
+        case, obs, pend, d = runs[-1]
+        out.sample({"allocation_kill": {"acknowledged_calls": len(obs), "in_flight": pend,
+                                        "after_reopen": post_cases[-1]["acts"][:8]}})
     return ks
 
 
